@@ -104,6 +104,7 @@ struct tsl_rec {
     int nb_nal;                         /* number of h26x.n[] attributes */
     uint64_t nal[TSL_MAX_NAL];
     uint64_t attr_hash;                 /* hash of the whole dictionary */
+    char *attr_txt;                     /* textual dump (verbose runs only) */
     uint64_t seq;                       /* global arrival order over all sinks */
 };
 
